@@ -89,8 +89,21 @@ fn main() {
         eprintln!("usage: e57sim <PROP> [quick|thorough] [--seed N] [--replay FILE]");
         std::process::exit(2)
     });
+    if prop == "calibrate" {
+        match refcodec::calibrate(true) {
+            Ok(n) => {
+                println!("calibration ok on {n} bundled files");
+                std::process::exit(0);
+            }
+            Err(e) => {
+                eprintln!("HARNESS-ERROR {e}");
+                std::process::exit(2);
+            }
+        }
+    }
     let code = match prop.as_str() {
         "C01" => dispatch(&props::c01::C01, &mode, &opts),
+        "C02" => dispatch(&props::c02::C02, &mode, &opts),
         "C06" => dispatch(&props::c06::C06, &mode, &opts),
         "C11" => dispatch(&props::c11::C11, &mode, &opts),
         "C15" => dispatch(&props::c15::C15, &mode, &opts),
